@@ -276,7 +276,9 @@ def check_compiled(npiece):
             ck = K.get_compiled_kernel(k)
             rs = k.radius_scale
             ulp = 0 if poly else 4
-            for h in (1.0, 0.1, 2.0 ** 10, 1e-3):
+            for h in (1.0, 0.1, 2.0 ** 10, 1e-3, 1e-6, 2.0 ** -20, 1e6) + (
+                    (1e-9, 2.0 ** -30, 3e-5, 0.3, 7.0, 1e9, 2.0 ** 30)
+                    if npiece > 100 else ()):
                 for q in q_lattice(rs, bounds, max(8, npiece // 8)):
                     for u in directions(dim)[:5]:
                         r = q * h
@@ -308,7 +310,7 @@ def check_compiled(npiece):
                                      fromlist=['x']), name)
             c = cls(**k.__dict__)
             for q in (0.0, 0.3, 0.9, 1.0, 1.7, 2.0, 2.5, 2.999, 3.0, 3.5):
-                for h in (1.0, 0.25):
+                for h in (1.0, 0.25, 1e-6, 2.0 ** -20, 1e3):
                     r = q * h
                     xa = np.array([r, 0.0, 0.0])
                     pairs = [(k.dwdq(r, h), c.py_dwdq(r, h), 'dwdq'),
